@@ -106,7 +106,17 @@ impl<T: Qcow2IoOps> Qcow2Dev<T> {
                 l1_table.map_l2_offset(l1_index, l2_offset);
                 self.mark_need_flush(true);
 
-                Ok(l1_table.get(l1_index))
+                // Put the slice we are here for into the cache (dirty, as the
+                // table's cluster is new) before the l1 table is unlocked:
+                // a flush of this l1 entry has to find something of the new
+                // table to flush first, which is what gets the table's
+                // cluster zeroed.  Otherwise a concurrent flush_meta() may
+                // write the entry while it points to a cluster which still
+                // holds whatever it held before.
+                let l1_e = l1_table.get(l1_index);
+                self.get_l2_slice_slow(&l1_e, split).await?;
+
+                Ok(l1_e)
             }
             None => Err("nothing allocated for l2 table".into()),
         }
